@@ -187,7 +187,10 @@ def main_check(prop_id, tier, seed):
         if res is None:
             if rc is not None and rc < 0 and rc != -999 and infl is not None:
                 # worker died on a signal: the in-flight case is a crash violation
-                violations.append((leg.interp, {"case": infl, "detail": "worker died with signal %d while running this case" % (-rc), "sig": "crash", "crash": True}))
+                csig = "crash"
+                if hasattr(mod, "crash_sig"):
+                    csig = mod.crash_sig(leg.interp, infl) or "crash"
+                violations.append((leg.interp, {"case": infl, "detail": "worker died with signal %d while running this case" % (-rc), "sig": csig, "crash": True}))
                 exhaustive = False
                 continue
             harness_errors.append("leg %s shard %d: rc=%s, no result\n%s" % (key, sh, rc, tail))
@@ -230,7 +233,7 @@ def main_check(prop_id, tier, seed):
     max_confirm = int(os.environ.get("VERIF_MAX_CONFIRM", "12"))
     for interp, v in violations:
         sig = v.get("sig", "")
-        if sig in open_sigs and not v.get("crash"):
+        if sig in open_sigs:
             known_hits[sig] += 1
             continue
         key = json.dumps(v["case"], sort_keys=True, default=str)
